@@ -18,7 +18,7 @@ import (
 
 func init() {
 	register(&Prop{ID: "C01", Gen: c01Gen, Oracle: c01Oracle,
-		Rule: "fault enumeration over (log size, tile height, record id, cache state, fault): bit flips at every position class of the lookup response (id / text / blank line / tree text / signature) and of every tile fetched, truncation, extension, extra signature, swap of responses, stale head, forged record with recomputed tiles (leaf only … all levels) under honest / attacker / spliced signatures, cache-file corruption, partial tiles dropped by the server with the complete tile served as true prefix + made-up tail; followed by a restart against the honest server (same tree, and a tree that has grown past the tiles of the faulty run); honest deep trees at tile height 1 (several hundred to thousands of records, more than 16 tiles per ReadHashes plan); non-trivial = the fault changes at least one response actually read; distinct by scenario line"})
+		Rule: "fault enumeration over (log size, tile height, record id, cache state, fault): bit flips at every position class of the lookup response (id / text / blank line / tree text / signature) and of every tile fetched, truncation, extension, extra signature, swap of responses, stale head, forged record with recomputed tiles (leaf only … all levels) under honest / attacker / spliced signatures, cache-file corruption, partial tiles dropped by the server with the complete tile served as true prefix + made-up tail; followed by a restart against the honest server (same tree, and a tree that has grown past the tiles of the faulty run); honest deep trees at tile height 1 (several hundred to thousands of records, more than 16 tiles per ReadHashes plan); logs with name-related records (one module path a proper suffix / prefix of another, same version) with the authentic responses swapped between them; co-signed heads (k unknown-key signature lines after / before the server's, distinct or repeated, k swept up to, at and beyond the 100-line limit of the note format — honest up to the limit); non-trivial = the fault changes at least one response actually read; distinct by scenario line"})
 }
 
 func c01Gen(g *Gen, n int) {
@@ -111,6 +111,47 @@ func c01Gen(g *Gen, n int) {
 		for k := 0; k < n/400+2 && len(cases) > 0; k++ {
 			c01EmitCase(g, cases[g.Intn(len(cases))])
 		}
+		// name-related records (responses swapped between a module path and a longer one that ends in / starts with it)
+		// and co-signed heads (number of unknown-key signature lines up to and beyond the limit): the same runs as in
+		// the oracle, as replay sessions; at least one swap between related names and one head exactly at the limit
+		cases = nil
+		sseed := clSibSeedBase + g.U64()%1000
+		for k := 0; k < 3; k++ {
+			N, h := 2+g.Intn(11), 1+g.Intn(2)
+			if thorough {
+				N, h = 2+g.Intn(23), 1+g.Intn(4)
+			}
+			c01EnumerateSiblings(g.Rand, sseed, N, h, func(c c01Case) { cases = append(cases, c) })
+		}
+		c01EmitSample(g, cases, n/100+4, "/lookup-sibswap")
+		cases = nil
+		for k := 0; k < 2; k++ {
+			N, h := 1+g.Intn(12), 1+g.Intn(2)
+			if thorough {
+				N, h = 1+g.Intn(40), 1+g.Intn(4)
+			}
+			c01EnumerateCosigned(g.Rand, wseed, N, h, g.Intn(N), func(c c01Case) { cases = append(cases, c) })
+		}
+		// (the regenerated Lean code needs about a second per hundred signature lines it opens: a fixed, small number of
+		// heads near the limit — always one exactly at it — and a few heads with a handful of co-signatures)
+		var atLimit, near, few []c01Case
+		for _, c := range cases {
+			switch c.tag[strings.LastIndexByte(c.tag, '/')+1:] {
+			case "at-limit":
+				atLimit = append(atLimit, c)
+			case "few":
+				few = append(few, c)
+			default:
+				near = append(near, c)
+			}
+		}
+		mult := 1
+		if thorough {
+			mult = 4
+		}
+		c01EmitSample(g, atLimit, mult, "")
+		c01EmitSample(g, near, mult, "")
+		c01EmitSample(g, few, 3*mult, "")
 	}
 	// forks (SecurityError path of checkTrees): sequential C13 scenarios over two logs sharing a prefix
 	for k := 0; k < n/6+1; {
@@ -159,6 +200,26 @@ func c01Gen(g *Gen, n int) {
 		for _, s := range clSessions(clRunScenario(sc)) {
 			g.Emit(s.line(), true, "lookup/special")
 		}
+	}
+}
+
+// c01EmitSample emits k seed-chosen cases; the first one is chosen among the cases whose tag ends in `must` (if any).
+func c01EmitSample(g *Gen, cases []c01Case, k int, must string) {
+	if len(cases) == 0 {
+		return
+	}
+	var pref []c01Case
+	for _, c := range cases {
+		if strings.HasSuffix(c.tag, must) {
+			pref = append(pref, c)
+		}
+	}
+	if len(pref) > 0 {
+		c01EmitCase(g, pref[g.Intn(len(pref))])
+		k--
+	}
+	for ; k > 0; k-- {
+		c01EmitCase(g, cases[g.Intn(len(cases))])
 	}
 }
 
@@ -651,6 +712,150 @@ func c01EnumerateDeep(r *Rand, wseed uint64, emit func(c01Case)) {
 	}
 }
 
+// c01Line assembles a scenario: setup steps, then (history setups) the client instance with its honest history, then the
+// faults, then (no history) the client instance, then the tail.
+func c01Line(head string, setup, hist, faults []string, tail string) string {
+	parts := append([]string{head}, setup...)
+	if len(hist) > 0 {
+		parts = append(parts, "new=0")
+		parts = append(parts, hist...)
+	}
+	for _, f := range faults {
+		parts = append(parts, "f+="+f)
+	}
+	if len(hist) == 0 {
+		parts = append(parts, "new=0")
+	}
+	return strings.Join(append(parts, tail), " ")
+}
+
+// c01EnumerateSiblings: NAME-RELATED records (util_clsib.go; wseed >= clSibSeedBase).  For every ordered pair (i, j) of
+// records of the log whose module paths are suffix- or prefix-related and whose versions are equal: the lookup of
+// record i is answered with the complete, authentic response of record j (for every lookup path, and for that path
+// only), in the cache states
+//
+//	cold        nothing stored
+//	cfg-same    the stored head is the head the response carries
+//	warm-none   warm cache below both records (both come from the network)
+//	warm-other  record j is in the warm cache, record i is not
+//	hist-other  the same client instance has looked up record j honestly before
+//
+// followed by the /go.mod lookup on the same instance and a restart against the honest server (the swapped response is
+// an authentic record, so it has been written to the cache under record i's file name: the restart reads it from there).
+// Class added because the generic swap (`L/swap/…` between unrelated module names, see c01Enumerate) can never show the
+// difference between "exactly the lines of the record that start with `path version `" and any other way of picking
+// lines for path@version out of the response: for unrelated names the response simply does not contain the string.
+func c01EnumerateSiblings(r *Rand, wseed uint64, N, h int, emit func(c01Case)) {
+	w := clGetWorld(wseed, N, 0, 0)
+	head := fmt.Sprintf("client.run w=%d:%d:0:0 h=%d", wseed, N, h)
+	for _, p := range clNameRelated(w.A, N) {
+		i, j := p[0], p[1]
+		pi, ok1 := clLookupFile(w.A.recs[i].path, w.A.recs[i].vers)
+		pj, ok2 := clLookupFile(w.A.recs[j].path, w.A.recs[j].vers)
+		if !ok1 || !ok2 || pi == pj {
+			continue
+		}
+		key := "A" + itoa(i)
+		tail := fmt.Sprintf("look=0:%s look=0:%sm f-= new=0 look=0:%s", key, key, key)
+		type setup struct {
+			name  string
+			steps []string
+			hist  []string
+		}
+		setups := []setup{{"cold", nil, nil}, {"cfg-same", []string{fmt.Sprintf("cfg=A@%d", N)}, nil},
+			{"hist-other", nil, []string{"look=0:A" + itoa(j)}}}
+		if k := min(i, j); k >= 1 {
+			setups = append(setups, setup{"warm-none", []string{fmt.Sprintf("warm=0:A@%d:*", k)}, nil})
+		}
+		if j < i {
+			setups = append(setups, setup{"warm-other", []string{fmt.Sprintf("warm=0:A@%d:*", i)}, nil})
+		}
+		for _, su := range setups {
+			pre := len(su.hist)
+			emit(c01Case{line: c01Line(head, su.steps, su.hist, nil, tail), honest: true, remote: true, tag: "honest/sib-" + su.name, pre: pre})
+			for fi, f := range []string{"L/swap/" + hx(pj), "P" + hx(pi) + "/swap/" + hx(pj)} {
+				// the (pair, cold, every-lookup-path) cell is exempt from the budget sampling of the oracle
+				emit(c01Case{line: c01Line(head, su.steps, su.hist, []string{f}, tail), remote: true, tag: "fault/sib-" + su.name + "/lookup-sibswap", pre: pre,
+					always: su.name == "cold" && fi == 0})
+			}
+		}
+	}
+}
+
+// c01EnumerateCosigned: CO-SIGNED tree heads (util_clsigs.go): every lookup response carries the server's signature plus
+// k signature lines by keys the client does not know; k is swept through small values, up to the documented limit of
+// the note format on the total number of signature lines (clMaxNoteSigs), and beyond it; distinct witnesses after / before
+// the server's line, and one witness line repeated.  Up to the limit these are HONEST runs (nothing is corrupted: the
+// honest clause applies — the lookup, the /go.mod lookup and the restart, which reads the co-signed head back from the
+// configuration and from the cached response, must all succeed with the server's lines); beyond the limit the head may
+// be refused and the run is judged as a faulty one (nothing unauthenticated returned or stored, restart cannot fail).
+func c01EnumerateCosigned(r *Rand, wseed uint64, N, h, id int, emit func(c01Case)) {
+	w := clGetWorld(wseed, N, 0, 0)
+	rec := w.A.recs[id]
+	lpath, ok := clLookupFile(rec.path, rec.vers)
+	if !ok {
+		return
+	}
+	resp, err := w.A.snap(N).get(lpath)
+	if err != nil {
+		return
+	}
+	base := clCountSigLines(resp) // signature lines of the server's own head
+	head := fmt.Sprintf("client.run w=%d:%d:0:0 h=%d", wseed, N, h)
+	key := "A" + itoa(id)
+	tail := fmt.Sprintf("look=0:%s look=0:%sm f-= new=0 look=0:%s", key, key, key)
+	type setup struct {
+		name  string
+		steps []string
+		hist  []string
+	}
+	setups := []setup{{"cold", nil, nil}, {"cfg-same", []string{fmt.Sprintf("cfg=A@%d", N)}, nil}}
+	if id >= 1 {
+		setups = append(setups, setup{"warm", []string{fmt.Sprintf("warm=0:A@%d:*", id)}, nil})
+	}
+	if N > 1 {
+		setups = append(setups, setup{"hist", nil, []string{"look=0:A" + itoa((id+1)%N)}})
+	}
+	lim := clMaxNoteSigs - base // number of co-signatures that exactly fills the note
+	type kv struct {
+		k int
+		v string
+	}
+	variants := []string{"", ".pre", ".dup"}
+	var kvs []kv
+	for _, k := range c01UniqNat([]int{1, 2 + r.Intn(6), 8 + r.Intn(lim-10), lim + 2 + r.Intn(60)}) {
+		kvs = append(kvs, kv{k, variants[r.Intn(3)]})
+	}
+	for _, k := range []int{lim - 1, lim, lim + 1} { // the boundary: every variant
+		for _, v := range variants {
+			kvs = append(kvs, kv{k, v})
+		}
+	}
+	for _, su := range setups {
+		pre := len(su.hist)
+		for _, x := range kvs {
+			honest := base+x.k <= clMaxNoteSigs
+			kind := "fault"
+			if honest {
+				kind = "honest"
+			}
+			cls := "few"
+			switch {
+			case x.k > lim:
+				cls = "over-limit"
+			case x.k == lim:
+				cls = "at-limit"
+			case x.k == lim-1:
+				cls = "below-limit"
+			case x.k >= 8:
+				cls = "mid"
+			}
+			emit(c01Case{line: c01Line(head, su.steps, su.hist, []string{fmt.Sprintf("L/sigs/%d%s", x.k, x.v)}, tail),
+				honest: honest, remote: true, tag: kind + "/cosigned-" + su.name + "/" + cls, pre: pre})
+		}
+	}
+}
+
 func c01UniqNat(l []int) []int {
 	seen := map[int]bool{}
 	var out []int
@@ -822,6 +1027,45 @@ func c01Oracle(g *Gen, n int) {
 	}
 	// deep trees at tile height 1 (honest)
 	c01EnumerateDeep(g.Rand, wseed, func(c c01Case) { c01Judge(g, c) })
+	// name-related records: the authentic response of a record whose module path ends in / starts with the wanted path
+	// (same version) served for the wanted one; every related pair of every log size, sampled down to the budget
+	{
+		sseed := clSibSeedBase + g.U64()%1000
+		var cases []c01Case
+		for N := 2; N <= min(maxN, 24); N++ {
+			for _, h := range heights {
+				c01EnumerateSiblings(g.Rand, sseed, N, h, func(c c01Case) { cases = append(cases, c) })
+			}
+		}
+		// (random sampling, not a stride: the enumeration is periodic — honest, swap on every path, swap on one path)
+		budget := n/10 + 1
+		for _, c := range cases {
+			if c.always || g.Intn(len(cases)) < budget {
+				c01Judge(g, c)
+			}
+		}
+		g.st.OracleTags["enumerated-siblings"] = len(cases)
+	}
+	// co-signed heads: the number of unknown-key signature lines swept up to and beyond the limit of the note format
+	{
+		nN := 2
+		if thorough {
+			nN = 10
+		}
+		Ns := []int{1}
+		for k := 0; k < nN; k++ {
+			Ns = append(Ns, 2+g.Intn(maxN-1))
+		}
+		total := 0
+		for _, N := range c01UniqNat(Ns) {
+			for _, h := range heights {
+				for _, id := range c01UniqNat([]int{0, g.Intn(N)}) {
+					c01EnumerateCosigned(g.Rand, wseed, N, h, id, func(c c01Case) { total++; c01Judge(g, c) })
+				}
+			}
+		}
+		g.st.OracleTags["enumerated-cosigned"] = total
+	}
 	// fixed regressions: the F6 scenario (forged record + forged leaf tile, honest head) and O3
 	for _, l := range []string{
 		"client.run w=1:7:0:0 h=2 f+=L/recsrc/F0@7 f+=T0.0/src/F0@7 new=0 look=0:A0 look=0:A0m f-= new=0 look=0:A0",
